@@ -80,6 +80,15 @@ def run(ctx):
                 cases.append(mk(eng, which, zero, k, 0))
                 ctx.count('zero custom radius: %s' % eng)
             cases.append(mk('symdel', which, zero[:5], k, 0, seqs2=zero[3:]))
+    # a distance whose values are of order 10^5 with radii one below / on / one above attained values: a comparison with a RELATIVE tolerance
+    # (np.isclose) keeps a pair at 100001 under the radius 100000 (seeded change C14-r7m2) - every engine, whatever the tier and seed
+    big = ['CAA', 'CAD', 'ACA', 'CADA', 'CDAA', 'AC', 'CAA']
+    for k in (1, 2):
+        for maxc in (100000, 100001, 200001, 200002):
+            for eng in engines:
+                cases.append(mk(eng, 6, big, k, maxc))
+                ctx.count('large-scale distance at the radius: %s' % eng)
+            cases.append(mk('symdel', 6, big[:4], k, maxc, seqs2=big[2:]))
     # via the algorithm-mirroring models
     for t in range(8 if ctx.quick else 60):
         which, k, maxc = rng.randrange(6), rng.choice([1, 2]), rng.choice(radii)
